@@ -76,7 +76,7 @@ func c07Pairs(tier string) []c07Pair {
 	add("string-vs-int", `F.S + 1 == "ab1"`, `F.S + "1" == "ab1"`)
 	add("bool-const", "F.B == true", "F.B == false")
 	// negation forms
-	neg := []string{"F.B", "!F.B", "!(F.B)", "!!F.B", "!(!F.B)", "!(F.I == 1)", "F.I == 1", "!(F.I != 1)", "F.I != 1"}
+	neg := []string{"F.B", "!F.B", "!(F.B)", "!!F.B", "!(!F.B)", "!(F.I == 1)", "F.I == 1", "!(F.I != 1)", "F.I != 1", "(F.B)", "(F.I == 1)", "((F.B))"}
 	for i := range neg {
 		for j := i + 1; j < len(neg); j++ {
 			add("negation", neg[i], neg[j])
